@@ -44,7 +44,9 @@ func C04Members() []func(a *App) {
 		},
 		// 6: a second REST subtree under the same prefix
 		func(a *App) {
-			a.Eps = append(a.Eps, &Endpoint{Kind: "rest", Method: "GET", Path: []PathSeg{{Static: "a"}, {Var: "id", VarT: &TypeExpr{Prim: "int"}}}, Stmts: []*Stmt{{Kind: "action", Text: "fetch"}}})
+			// the path variable is typed by a dotted reference: it must not end up as a field of whatever
+			// type happens to be declared before it in the same block
+			a.Eps = append(a.Eps, &Endpoint{Kind: "rest", Method: "GET", Path: []PathSeg{{Static: "a"}, {Var: "id", VarT: &TypeExpr{RefApp: []string{"Other"}, Ref: []string{"U"}}}}, Stmts: []*Stmt{{Kind: "action", Text: "fetch"}}})
 		},
 		// 7: an event and an enum
 		func(a *App) {
